@@ -24,7 +24,7 @@ func init() {
 	register(&Property{
 		ID:          "C20",
 		Run:         runC20,
-		Explanation: "Decides the structural clauses that make error classification path-independent: (R1) every in-repo error type that stores an error exposes it through Unwrap (whole repo); (R2) on the packages between a node/worker/connector error and tomb.Kill / the API status mapping / ExitCode, every error-typed operand of Errorf is formatted with %w and no cerrors.Errorf (= xerrors.Errorf, single %w only) carries two; (R3) no identity comparison or type assertion classifies an error outside cerrors.Is/As (tabled never-wrapped exceptions); (R4) the classifiers IsFatalError / FatalError / conduiterr.Get / Wrap are errors.As based; (R5, exhaustive) the exit-code function is a total pure constant table and every conduiterr.Register-ed code lands in exactly one bucket, ExitCode consults the coded error before the gRPC status before the sentinels, and os.Exit is fed only by that classifier; (R6) ToStatus and FromStatus agree on metadata keys, domain and reason lookup.",
+		Explanation: "Decides the structural clauses that make error classification path-independent: (R1) every in-repo error type that stores an error exposes it through Unwrap (whole repo); (R2) on the packages between a node/worker/connector error and tomb.Kill / the API status mapping / ExitCode, every error-typed operand of Errorf is formatted with %w and no cerrors.Errorf (= xerrors.Errorf, single %w only) carries two; (R3) no identity comparison or type assertion classifies an error outside cerrors.Is/As (tabled never-wrapped exceptions); (R4) the classifiers IsFatalError / FatalError / conduiterr.Get / Wrap are errors.As based; (R5, exhaustive) the exit-code function is a total pure constant table and every conduiterr.Register-ed code lands in exactly one bucket, ExitCode consults the coded error before the gRPC status before the sentinels, and os.Exit is fed only by that classifier; (R6) ToStatus and FromStatus agree on metadata keys, domain and reason lookup. Rules added later (after independent seeded changes and defect hunts) are not all enumerated here: every armed rule is listed with its description, kind and instance count under coverage.rules.",
 		NotDecided:  []string{"behaviour of errors.As/Is/Join and xerrors themselves", "protobuf encoding of the status details", "which bucket a code should be in (the property demands a fixed function, not a particular one)"},
 		Assumptions: []string{"errors.As/Is walk Unwrap() error and Unwrap() []error chains", "xerrors.Errorf honours exactly one %w"},
 	})
